@@ -28,9 +28,13 @@ def main():
                     break
         rows.append((name, m.get("property"), m.get("change", ""), m.get("needs_to_manifest", ""), caught, missed, sigs, m.get("confirmed")))
     out = [MARK, "",
-           "Written by fresh sub-agents that were given only the text of one property and a scratch worktree of `/repo` (nothing from `/verif`);",
-           "each compiles, passes the 63 pinned tests, and comes with a demonstration test that fails with the change and passes without it",
-           "(confirmed here by `lib/seed.py` in a scratch worktree before it was kept; `seeded/<id>/{patch.diff, demo.rs, author_notes.md, meta.json}`).",
+           "Written by fresh sub-agents that were given only the text of one property and a scratch worktree of `/repo` (nothing from `/verif`;",
+           "from round 2 on also one-line descriptions of the edits submitted earlier, so that new ones differ); each compiles, passes the 63 pinned",
+           "tests, and comes with a demonstration test that fails with the change and passes without it (confirmed here by `lib/seed.py` in a scratch",
+           "worktree before it was kept; `seeded/<id>/{patch.diff, demo.rs, author_notes.md, meta.json}`). Rounds: `-M1/-M2` round 1, `-M3/-M4` round 2",
+           "(the patch files of round 2 were lost with a sandbox restore; they were re-created by other sub-agents from the authors' one-line descriptions,",
+           "with new demonstrations, and confirmed the same way), `-M5/-M6` round 3. Several authors independently chose the same edit for different",
+           "properties (marked \"same edit as\"); each is kept, with its own demonstration.",
            "`caught by` = quick tier of that check printed `VIOLATION property=<that check's id>` when pointed at the changed tree (`VERIF_REPO`);",
            "`ran silent` = checks that were also tried and stayed silent (a change usually breaks one property in the strict sense, neighbours are listed",
            "to show where attribution ends). Results are those of the last run recorded in `meta.json` (`lib/reseed.py`).", "",
@@ -45,7 +49,8 @@ def main():
             cs += " (`%s`)" % sigs[0][:90]
         out.append("| %s | %s | %s | %s | %s | %s |" % (name, prop, change.replace("|", "/"), needs.replace("|", "/"), cs, ", ".join(missed) or "-"))
     out.append("")
-    out.append("%d of %d seeded changes are caught by at least one check; see section 9.3 for what was changed in the machinery after a miss." % (n_ok, len(rows)))
+    n_own = sum(1 for (name, prop, change, needs, caught, missed, sigs, conf) in rows if prop in caught)
+    out.append("%d of %d seeded changes are caught by at least one check, %d of them (also) by the check of the property they were written for; see section 9.3 for what was changed in the machinery after a miss, and for the one change no check catches." % (n_ok, len(rows), n_own))
     out.append("")
     text = "\n".join(out)
     p = os.path.join(ROOT, "DESIGN.md")
